@@ -37,7 +37,7 @@ static void report(const char* backend, const char* what, const char* cls, const
 
 // ------------------------------------------------------------------ the tree
 struct InvNode { int sbx; std::vector<int> cbs; };  // tokens of the callbacks the guest makes
-struct CbNode { std::vector<int> invs; };           // invocations made from the callback body
+struct CbNode { std::vector<int> invs; int chg = -1; }; // invocations made from the callback body; chg >= 0: the body first switches its sandbox's transition state
 static std::vector<InvNode> g_inv;
 static std::vector<CbNode> g_cb;
 enum Phase { P_NONE, P_ARG, P_BODY, P_RESULT };
@@ -49,6 +49,7 @@ static int gen_cb(mon::Rng& rng, int depth, int& budget)
 {
   int tok = g_cb.size();
   g_cb.push_back({});
+  if (rng.below(4) == 0) g_cb[tok].chg = 1 + static_cast<int>(rng.below(62));
   if (depth > 0) {
     int n = rng.below(10) < 7 ? 1 + rng.below(2) : 0;
     for (int i = 0; i < n && budget > 0; i++) { int id = gen_inv(rng, depth - 1, budget); g_cb[tok].invs.push_back(id); }
@@ -72,7 +73,13 @@ template<typename B> struct Ctx
   static inline sandbox_callback<long (*)(int), B>* cb[2] = { nullptr, nullptr };
   static inline void* sym[2] = { nullptr, nullptr }; // address the backend calls for "run_node"
 };
-static char g_state_tag[2];
+// transition states: one pool per sandbox; the application may switch a sandbox's state at any time (here: from callback
+// bodies, i.e. while invocations are in flight) and every notification must carry the state current at that moment
+static char g_state_pool[2][64];
+static int g_sim_state[2] = { 0, 0 };
+static int sbx_of(const void* st) { auto c = static_cast<const char*>(st); return (c >= g_state_pool[0] && c < g_state_pool[0] + 64) ? 0 : ((c >= g_state_pool[1] && c < g_state_pool[1] + 64) ? 1 : -1); }
+static int idx_of(const void* st) { int s = sbx_of(st); return s < 0 ? -1 : static_cast<int>(static_cast<const char*>(st) - g_state_pool[s]); }
+static void* sim_state(int s) { return &g_state_pool[s][g_sim_state[s]]; }
 
 // guest: makes the callbacks of node `id`
 static MG<int> mg_run_node(MP cb, MG<long> id)
@@ -95,6 +102,7 @@ static tainted<long, B> the_cb(rlbox_sandbox<B>&, tainted<int, B> tok)
 {
   int t = tok.UNSAFE_unverified();
   if (g_abort_phase == P_BODY && g_abort_at == t) rlbox::detail::dynamic_check(false, "injected abort in callback body");
+  if (g_cb[t].chg >= 0) Ctx<B>::box[Me]->set_transition_state(&g_state_pool[Me][g_cb[t].chg]);
   for (int id : g_cb[t].invs) run_inv<B>(id);
   tainted<long, B> r = 1;
   if (g_abort_phase == P_RESULT && g_abort_at == t) r = static_cast<long>(1) << 40; // not representable in a 32-bit guest long
@@ -116,34 +124,35 @@ template<typename B>
 static void sim_inv(int id, std::vector<c19::Ev>& out, void* key[2])
 {
   int s = g_inv[id].sbx;
-  out.push_back({ true, 0, "run_node", Ctx<B>::sym[s], &g_state_tag[s] });
+  out.push_back({ true, 0, "run_node", Ctx<B>::sym[s], sim_state(s) });
   try {
     if (g_abort_phase == P_ARG && g_abort_at == id) throw Abort{};
     for (int tok : g_inv[id].cbs) sim_cb<B>(tok, s, out, key);
   } catch (Abort&) {
-    out.push_back({ false, 0, "run_node", Ctx<B>::sym[s], &g_state_tag[s] });
+    out.push_back({ false, 0, "run_node", Ctx<B>::sym[s], sim_state(s) });
     throw;
   }
-  out.push_back({ false, 0, "run_node", Ctx<B>::sym[s], &g_state_tag[s] });
+  out.push_back({ false, 0, "run_node", Ctx<B>::sym[s], sim_state(s) });
 }
 template<typename B>
 static void sim_cb(int tok, int s, std::vector<c19::Ev>& out, void* key[2])
 {
-  out.push_back({ false, 1, "", key[s], &g_state_tag[s] });
+  out.push_back({ false, 1, "", key[s], sim_state(s) });
   try {
     if (g_abort_phase == P_BODY && g_abort_at == tok) throw Abort{};
+    if (g_cb[tok].chg >= 0) g_sim_state[s] = g_cb[tok].chg;
     for (int id : g_cb[tok].invs) sim_inv<B>(id, out, key);
     if (g_abort_phase == P_RESULT && g_abort_at == tok) throw Abort{};
   } catch (Abort&) {
-    out.push_back({ true, 1, "", key[s], &g_state_tag[s] });
+    out.push_back({ true, 1, "", key[s], sim_state(s) });
     throw;
   }
-  out.push_back({ true, 1, "", key[s], &g_state_tag[s] });
+  out.push_back({ true, 1, "", key[s], sim_state(s) });
 }
 
 static std::string evstr(const c19::Ev& e)
 {
-  return mon::fmt("%s(%s%s%s,s%d)", e.in ? "IN" : "OUT", e.kind == 0 ? "INV" : "CB", e.name.empty() ? "" : ":", e.name.c_str(), e.state == &g_state_tag[0] ? 0 : (e.state == &g_state_tag[1] ? 1 : -1));
+  return mon::fmt("%s(%s%s%s,s%d.st%d)", e.in ? "IN" : "OUT", e.kind == 0 ? "INV" : "CB", e.name.empty() ? "" : ":", e.name.c_str(), sbx_of(e.state), idx_of(e.state));
 }
 static std::string trstr(const std::vector<c19::Ev>& t)
 {
@@ -160,6 +169,7 @@ static void one_run(const char* bn, void* key[2], bool expect_abort_possible, mo
   // expected full trace
   std::vector<c19::Ev> full;
   bool sim_aborted = false;
+  for (int s = 0; s < 2; s++) { g_sim_state[s] = 0; Ctx<B>::box[s]->set_transition_state(&g_state_pool[s][0]); }
   try { sim_inv<B>(0, full, key); } catch (Abort&) { sim_aborted = true; }
   std::vector<c19::Ev> want;
   for (auto& e : full) {
@@ -198,7 +208,7 @@ static void one_run(const char* bn, void* key[2], bool expect_abort_possible, mo
         if (e.kind == 1 && (stack.empty() || stack.back().kind != 0)) { bad = true; why = "callback crossing outside an invocation"; break; }
         stack.push_back(e);
       } else {
-        if (stack.empty() || stack.back().kind != e.kind || stack.back().ptr != e.ptr || stack.back().state != e.state || stack.back().name != e.name) { bad = true; why = "closing notification does not match the innermost open crossing: " + evstr(e); break; }
+        if (stack.empty() || stack.back().kind != e.kind || stack.back().ptr != e.ptr || sbx_of(stack.back().state) != sbx_of(e.state) || stack.back().name != e.name) { bad = true; why = "closing notification does not match the innermost open crossing: " + evstr(e); break; }
         stack.pop_back();
       }
 #else
@@ -225,7 +235,7 @@ static void one_run(const char* bn, void* key[2], bool expect_abort_possible, mo
     std::vector<c19::Ev> closes;
     for (auto& e : full) {
       bool closing = (e.kind == 0) ? !e.in : e.in;
-      if (closing && e.state == &g_state_tag[s]) closes.push_back(e);
+      if (closing && sbx_of(e.state) == s) closes.push_back(e);
     }
     auto& tt = Ctx<B>::box[s]->process_and_get_transition_times();
     bool ok = tt.size() == closes.size();
@@ -246,8 +256,8 @@ static void run_backend(mon::Rng& rng)
   rlbox_sandbox<B> a, b;
   be::BT<B>::create(a, 0);
   be::BT<B>::create(b, 1);
-  a.set_transition_state(&g_state_tag[0]);
-  b.set_transition_state(&g_state_tag[1]);
+  a.set_transition_state(&g_state_pool[0][0]);
+  b.set_transition_state(&g_state_pool[1][0]);
   {
     auto ca = a.register_callback(the_cb<B, 0>);
     auto cb = b.register_callback(the_cb<B, 1>);
